@@ -8,6 +8,13 @@ def pairs (s : String) : List (String × Nat) := (lst s).filterMap fun e =>
   match e.splitOn ":" with | [a, b] => some (a, b.toNat!) | _ => none
 def sortS (l : List String) : List String := (l.toArray.qsort (· < ·)).toList
 def dedupS (l : List String) : List String := l.foldl (fun acc x => if acc.contains x then acc else acc ++ [x]) []
+/-- `n:R` — the re-export idiom `x = Base["x"]`: the description the bases resolve the name to, listed again as a direct definition
+    (dropped when the bases do not have the name); resolved on a scratch interface with the same bases -/
+def attrsOf (w : W) (bases : List Nat) (s : String) : List (String × Nat) := (lst s).filterMap fun e =>
+  match e.splitOn ":" with
+  | [a, "R"] => (get (newIface w 999999 bases [] [] []) 999999 a).2.map fun d => (a, d)
+  | [a, b] => some (a, b.toNat!)
+  | _ => none
 structure St where
   w : W
   names : List String := []
@@ -18,13 +25,13 @@ partial def loop (h : IO.FS.Stream) (s : St) : IO Unit := do
   | ["reset"] => IO.println "ok"; loop h { w := { g := ZI.Graph2.init 0 } }
   | ["iface", i, bs, at_, tg, iv] =>
       let bases := (lst bs).map String.toNat!
-      let attrs := pairs at_
+      let attrs := attrsOf s.w (if bases.isEmpty then [0] else bases) at_
       let invs := (pairs iv).map fun p => (p.1.toNat!, p.2 == 1)
       IO.println "ok"
       loop h { w := newIface s.w i.toNat! (if bases.isEmpty then [0] else bases) attrs (pairs tg) invs,
                names := dedupS (s.names ++ attrs.map (·.1)) }
   | ["twin", i, _, at_, tg, iv] =>         -- a distinct interface object (equal name and module on the real side): a fresh node
-      let attrs := pairs at_
+      let attrs := attrsOf s.w [0] at_
       let invs := (pairs iv).map fun p => (p.1.toNat!, p.2 == 1)
       IO.println "ok"
       loop h { w := newIface s.w i.toNat! [0] attrs (pairs tg) invs,
